@@ -730,22 +730,22 @@ def mon_recv_credit_soft(ctx, conn):
 
 
 def run_c10(ctx):
-    return run_family(ctx, ["srv-goaway"], [lambda c, k: mon_goaway(c, k) and None, mon_conn_offence],
+    return run_family(ctx, ["srv-goaway", "srv-acct"], [lambda c, k: mon_goaway(c, k) and None, mon_conn_offence],
                       "srv-goaway: one of 19 connection-scoped offences (frame size, CONTINUATION sequencing, even/lower stream id, SETTINGS values, flow-control, compression, frames on idle streams, idle timeout) after 0-3 requests (some still running) with trailing requests/pings.")
 
 
 def run_c13(ctx):
-    return run_family(ctx, ["srv-limits"], [mon_limits],
+    return run_family(ctx, ["srv-limits", "srv-acct"], [mon_limits],
                       "srv-limits: 30-90 step adversarial schedules with MaxConcurrentStreams 1-4, MaxHeaderListSize 2000, MaxRequestBodySize 500: rapid HEADERS+RST with parked handlers, half-open streams, endless CONTINUATION, oversized and mis-declared bodies, late frames; gauges sampled every 10 steps.")
 
 
 def run_c14(ctx):
-    return run_family(ctx, ["srv-recv"], [mon_recv_credit],
+    return run_family(ctx, ["srv-recv", "srv-acct"], [mon_recv_credit],
                       "srv-recv: 1-3 uploads per connection (50-5000 octets, every 4th connection > 2.2 MB so the connection window must be refilled), random chunking and padding, padded empty DATA, half of the connections with a 3.2 MB body cut off by the body limit.")
 
 
 def run_c17(ctx):
-    return run_family(ctx, ["srv-soup"], [mon_no_panic_returns],
+    return run_family(ctx, ["srv-soup", "srv-acct"], [mon_no_panic_returns],
                       "srv-soup: every 3rd (thorough: every) truncation offset of a recorded well-formed client byte stream followed by EOF; structure-aware mutations (frame delete/duplicate/insert, header or payload bit flip); random frame soups; each ends with EOF and ServeConn must return.")
 
 
